@@ -192,27 +192,29 @@ def record_diff(impl, model):
     return None
 
 
-def gen_plan(rng, recs, samples, targets, chroms_on):
+def gen_plan(rng, recs, samples, targets, chroms_on, dense=False):
     """random super-reads / components per chromosome run and target sample (not solver output: any alleles, homozygous
-    phases, positions outside the file, components without phase and vice versa)"""
+    phases, positions outside the file, components without phase and vice versa).  dense: (nearly) every position gets a
+    heterozygous phase and a component - the first and the last record of a chromosome are then phased as a rule"""
     plan = []
+    p_pos, p_het, p_comp = (1.0, 0.48, 0.98) if dense else (0.8, 0.42, 0.88)
     for chrom, idxs in R.chrom_blocks(recs):
         ts = []
         if chrom in chroms_on:
             positions = sorted({recs[i]["pos"] for i in idxs})
             for s in targets:
-                chosen = [p for p in positions if rng.random() < 0.8]
+                chosen = [p for p in positions if rng.random() < p_pos]
                 if rng.random() < 0.15:
                     chosen.append(max(positions) + 7)            # not a record of the file
                 sr0, sr1, comps = [], [], []
                 first = None
                 for p in chosen:
                     r = rng.random()
-                    a, b = (0, 1) if r < 0.42 else (1, 0) if r < 0.84 else rng.choice([(0, 0), (1, 1), (2, 1), (1, 2), (0, 1)])
+                    a, b = (0, 1) if r < p_het else (1, 0) if r < 2 * p_het else rng.choice([(0, 0), (1, 1), (2, 1), (1, 2), (0, 1)])
                     sr0.append([p, a]); sr1.append([p, b])
                     if first is None or rng.random() < 0.25:
                         first = p
-                    if rng.random() < 0.88:
+                    if rng.random() < p_comp:
                         comps.append([p, first])
                 if rng.random() < 0.1 and positions:
                     p = rng.choice(positions)
